@@ -315,9 +315,15 @@ def r4_delimiters(ctx):
                     ok = rng is not None and rng[2] == "RangeFrom" and rng[3][0][0] == "bin" and rng[3][0][1] == "Add" and rng[3][0][2] == ("c", "usize", 8)
                     ctx.ob("R4", "emit_bang:DocType", ok and vs[k] == "DocType", "payload starts after `!DOCTYPE` (8) plus the following whitespace: %s" % (sym.show(rng) if rng else None), config=cfg)
             ctx.ob("R4", "emit_bang:kinds", seen == {"Comment", "CData", "DocType"}, "emit_bang produces exactly Comment, CData, DocType: %s" % seen, config=cfg)
-            c0 = F.closure("quick_xml::reader::state::ReaderState::emit_bang::{closure#0}")
-            ok = c0 is not None and any(name_is(callee_of(t)[0] or "", "eq_ignore_ascii_case") for _, t in c0.calls())
-            lit = [bytes_literal(a) for p in ctx.paths(b) for c in calls(p) if isinstance(c[2], str) and c[2].endswith("emit_bang::{closure#0}") for a in sym.subterms(c[3][1]) if bytes_literal(a)]
+            # the case-insensitive prefix test: a closure of emit_bang or a private function it calls
+            testers = {}
+            for p in ctx.paths(b):
+                for c in calls(p):
+                    if isinstance(c[2], str) and not isinstance(c[1], tuple) and "quick_xml::" in c[2] and c[2] not in testers:
+                        tb = F.closure(c[2]) if "{closure" in c[2] else F.body(strip_generics(c[2]).split("quick_xml::", 1)[-1])
+                        testers[c[2]] = tb is not None and any(name_is(callee_of(t)[0] or "", "eq_ignore_ascii_case") for _, t in tb.calls())
+            ok = any(testers.values())
+            lit = [bytes_literal(a) for p in ctx.paths(b) for c in calls(p) if isinstance(c[2], str) and testers.get(c[2]) and len(c[3]) > 1 for a in sym.subterms(c[3][-1]) if bytes_literal(a)]
             ctx.ob("R4", "emit_bang:DOCTYPE-keyword", ok and set(lit) == {b"!DOCTYPE"}, "the DOCTYPE keyword is matched ignoring ASCII case against `!DOCTYPE` (8 bytes = the cut): %s" % set(lit), config=cfg)
         q = ctx.body(F, "reader::state::ReaderState::emit_question_mark", "R4")
         if q is not None:
@@ -470,4 +476,17 @@ def r9_options_restored(ctx):
         o["site"] = "read_to_end:" + o["site"]
         o["rule"] = "R9"
 
-RULES = [("R1", r1_dispatch), ("R2", r2_eof_errors), ("R3", r3_scanners), ("R4", r4_delimiters), ("R5", r5_whitespace), ("R6", r6_accessors), ("R7", r7_sources), ("R8", r8_comment_scan), ("R9", r9_options_restored)]
+def r10_no_invented_text(ctx):
+    """the reader yields exactly the constructs of the input: a text that trimming left empty is not an event.  C16 R3's
+    guard rule is re-evaluated for the end-of-input arm (the markup arm's missing guard is the known finding recorded
+    under C16; it is not repeated here)"""
+    import c16
+    n0 = len(ctx.obs)
+    c16.r3_empty_dropped(ctx)
+    ctx.obs[n0:] = [o for o in ctx.obs[n0:] if "UpToEof" in o["site"]]
+    for o in ctx.obs[n0:]:
+        o["rule"] = "R10"
+    ctx.floor("R10", "end-of-input text exits", len(ctx.obs) - n0, 1)
+
+
+RULES = [("R1", r1_dispatch), ("R2", r2_eof_errors), ("R3", r3_scanners), ("R4", r4_delimiters), ("R5", r5_whitespace), ("R6", r6_accessors), ("R7", r7_sources), ("R8", r8_comment_scan), ("R9", r9_options_restored), ("R10", r10_no_invented_text)]
